@@ -551,6 +551,7 @@ impl DeconstructedPat {
             | Type::String
             | Type::Bool
             | Type::Void
+            | Type::Never
             | Type::Poly(..)
             | Type::InterfaceOutput(..)
             | Type::Function(..) => vec![],
@@ -575,7 +576,6 @@ impl DeconstructedPat {
                 }
                 _ => panic!("unexpected constructor"),
             },
-            Type::Never => unreachable!(),
         }
     }
 
@@ -1143,7 +1143,8 @@ fn ctors_for_ty(ty: &Type) -> ConstructorSet {
         Type::Int | Type::Float | Type::String | Type::Function(..) => ConstructorSet::Unlistable,
         Type::Poly(..) => ConstructorSet::Unlistable,
 
-        Type::Never => unreachable!(),
+        // a scrutinee that never yields a value (`match panic("..") { .. }`): nothing to enumerate
+        Type::Never => ConstructorSet::Unlistable,
         Type::InterfaceOutput(..) => unreachable!(),
     }
 }
